@@ -1,6 +1,7 @@
 use crate::codegen::symbols::SymbolIndex;
 use crate::codegen::ProgramCounter;
 use crate::parser::code_map::{CodeMap, Span};
+use crate::parser::Identifier;
 use std::ops::Range;
 
 #[derive(Debug, Default)]
@@ -12,6 +13,8 @@ pub struct SourceMap {
 pub struct SourceMapOffset {
     pub scope: SymbolIndex,
     pub span: Span,
+    /// The segment the bytes were emitted to (target addresses of different segments may overlap)
+    pub segment: Identifier,
     pub pc: Range<usize>,
 }
 
@@ -24,10 +27,18 @@ impl SourceMap {
         &self.offsets
     }
 
-    pub fn add(&mut self, scope: SymbolIndex, span: Span, pc: ProgramCounter, len: usize) {
+    pub fn add(
+        &mut self,
+        scope: SymbolIndex,
+        span: Span,
+        segment: &Identifier,
+        pc: ProgramCounter,
+        len: usize,
+    ) {
         let offset = SourceMapOffset {
             scope,
             span,
+            segment: segment.clone(),
             pc: pc.as_usize()..(pc.as_usize() + len),
         };
         self.offsets.push(offset);
